@@ -163,6 +163,8 @@ def main(spec, argv=None):
     run_profile(spec, a.tier, a.seed, True, lean["ok"], violations, stats)
     if a.tier == "thorough" and spec.release_in_thorough:
         run_profile(spec, a.tier, a.seed, False, lean["ok"], violations, stats)
+    if getattr(spec, "extra_part", None) and not any(v.key == "harness-build-failed" for v in violations):
+        spec.extra_part(a.tier, a.seed, violations, stats)
     if not lean["ok"]:
         names = [f.get("theorem") or f.get("module") or f["kind"] for f in lean["failures"]]
         if not any(v.found_input for v in violations):
